@@ -34,6 +34,11 @@ type Schedule struct {
 	// StartOnly makes a job start (monitor up, state "running") in one
 	// iteration and finish only in the next.
 	StartOnly map[string]bool `json:"start_only,omitempty"`
+	// Linger makes a job's process stay alive for one more loop iteration
+	// after its stage code returned: everything the stage code wrote
+	// (_stage_defs / _outs and their journal entries) is visible to mrp one
+	// iteration before the job's completion is.
+	Linger map[string]bool `json:"linger,omitempty"`
 	// Perm gives, for the i-th (0-based) iteration of a map with >=2 keys at
 	// a tracked site, a permutation to apply instead of the sorted order.
 	Perm map[int][]int `json:"perm,omitempty"`
@@ -488,6 +493,7 @@ func Run(p *progen.Program, sched Schedule, opts Options) (res *Result) {
 		stale []byte
 	}
 	zombies := map[string][]zombie{}
+	lingering := map[*core.VerifJob]func(){}
 	runBody := func(j *core.VerifJob) {
 		o := obs[j]
 		in := h.JobRead(j)
@@ -561,6 +567,13 @@ func Run(p *progen.Program, sched Schedule, opts Options) (res *Result) {
 		}
 		how, msg := applyBody(p, h, j, io, fault)
 		h.JobBodyDone(j, fault)
+		if sched.Linger[j.Key()] && o.Attempt == 1 && how == "complete" {
+			lingering[j] = func() {
+				o.Recorded = h.JobFinish(j, how, msg)
+				o.Finished, o.How = true, how
+			}
+			return
+		}
 		o.Recorded = h.JobFinish(j, how, msg)
 		o.Finished, o.How = true, how
 	}
@@ -580,6 +593,11 @@ func Run(p *progen.Program, sched Schedule, opts Options) (res *Result) {
 			}
 			if n := lagLeft[j]; n > 0 {
 				lagLeft[j] = n - 1
+				continue
+			}
+			if fin := lingering[j]; fin != nil {
+				delete(lingering, j)
+				fin()
 				continue
 			}
 			if j.Step == 0 {
